@@ -27,8 +27,20 @@ def gen_section_body(rng, sec, plant):
         planted = pos
     elif plant == 'tifa':
         pos = rng.randrange(len(lines) + 1)
-        lines.insert(pos, 'print(undefined_%d)' % sec)
-        planted = pos
+        k = rng.randrange(5)
+        if k == 0:
+            # issues that TIFA locates through an explicitly given node
+            lines[pos:pos] = ['for q%d in 5:' % sec, '    pass']
+            planted = pos
+        elif k == 1:
+            lines[pos:pos] = ['e%d = []' % sec, 'for q%d in e%d:' % (sec, sec), '    pass']
+            planted = pos + 1
+        elif k == 2:
+            lines[pos:pos] = ['w%d = 5' % sec, 'w%d.append(3)' % sec]
+            planted = pos + 1
+        else:
+            lines.insert(pos, 'print(undefined_%d)' % sec)
+            planted = pos
     elif plant == 'runtime':
         pos = len(lines)
         lines.append('zz%d = 1/0' % sec)
@@ -157,7 +169,7 @@ def oracle(case, res):
                     return ('wrong-traceback-line', '%s traceback text mentions lines %s; the raising line is %s' % (f['label'], f['msg_lines'], planted))
         if op in ('verify', 'tifa', 'run') and k <= nsec:
             for f in st['new']:
-                want_kind = {'verify': ('syntax_error', 'indentation_error'), 'tifa': ('initialization_problem',),
+                want_kind = {'verify': ('syntax_error', 'indentation_error'), 'tifa': ('initialization_problem', 'iterating_over_non_list', 'iterating_over_empty_list', 'append_to_non_list'),
                              'run': None}[op]
                 if f['category'] not in ('syntax', 'algorithmic', 'runtime'):
                     continue
